@@ -7,6 +7,7 @@
 //                                         tj: jbn_merge_patch_from_json  ta: jbn_patch_auto
 //                                         bj: jbl_merge_patch            bb: jbl_merge_patch_jbl
 //   mpath <tp|th> <doc> <path> <val>      jbn_merge_patch_path (val "-" = no value)
+//   cmp <a> <b>                           jbn_compare_nodes(a, b) == 0 and (b, a) == 0: the equality `test` uses -> eq=<0|1> rev=<0|1>
 // Answer: rc=<enum> doc=<canonical dump> [kl=<cached indices of array items, dfs>] [links=ok|bad] [unchanged=0|1] [leak=0|1]
 // Includes iwjson.c itself so that the static functions are reachable.
 #include "json/iwjson.c"
@@ -352,6 +353,25 @@ mdone:
 qdone:
       iwpool_destroy(pool);
       free(doc); free(path); free(val);
+    } else if (!strcmp(tv[0], "cmp") && n == 3) {
+      uint8_t *a, *b;
+      unhex0(tv[1], &a); unhex0(tv[2], &b);
+      struct iwpool *pool = iwpool_create(4096);
+      struct jbl_node *na = 0, *nb = 0;
+      iwrc rc = jbn_from_json((char*) a, &na, pool);
+      if (rc) { printf("docparse=%s\n", rcname(rc)); goto cdone; }
+      rc = jbn_from_json((char*) b, &nb, pool);
+      if (rc) { printf("patchparse=%s\n", rcname(rc)); goto cdone; }
+      {
+        iwrc rc1 = 0, rc2 = 0;
+        int r1 = jbn_compare_nodes(na, nb, &rc1);
+        int r2 = jbn_compare_nodes(nb, na, &rc2);
+        if (rc1 || rc2) printf("rc=%s\n", rcname(rc1 ? rc1 : rc2));
+        else printf("eq=%d rev=%d\n", r1 == 0, r2 == 0);
+      }
+cdone:
+      iwpool_destroy(pool);
+      free(a); free(b);
     } else {
       printf("?\n");
     }
